@@ -121,6 +121,43 @@ Section Crash.
     intros Ho Hn. destruct c; cbn [after_atomic]; [left|right]; apply load_rendered; assumption.
   Qed.
 
+  (* ---- an I/O error instead of a crash: the process lives, save has to say what happened ----
+     save-in-place is: open(path, "w") ; write(text) (buffered) ; close (which flushes).  Each of
+     the three may fail with OSError; [kept] bytes of the buffered text reached the file before
+     the failing flush.  The code reports every such error as the persistence write error. *)
+  Inductive io_fault := FailOpen | FailWrite | FailClose (kept : nat).
+  Inductive save_outcome := SaveDone | SaveWriteError.
+
+  Definition save_io (old new : list (Z * node)) (f : option io_fault) : save_outcome * text :=
+    match f with
+    | None => (SaveDone, render new)
+    | Some FailOpen => (SaveWriteError, render old)          (* the file was not opened: untouched *)
+    | Some FailWrite => (SaveWriteError, [])                 (* truncated, nothing flushed *)
+    | Some (FailClose kept) => (SaveWriteError, firstn kept (render new))
+    end.
+
+  (* a save that returns normally has written the file: it loads to the registry that was saved;
+     every I/O error is reported, whatever it left on the disk *)
+  Theorem save_io_reports old new f :
+    reg_ok new ->
+    match fst (save_io old new f) with
+    | SaveDone => f = None /\ load_text (snd (save_io old new f)) = LReg (persisted new)
+    | SaveWriteError => f <> None
+    end.
+  Proof.
+    intros Hn. destruct f as [[| |kept]|]; cbn [save_io fst snd]; try discriminate.
+    split; [reflexivity|apply load_rendered; exact Hn].
+  Qed.
+
+  (* what an unreported error would mean: the file after a failing close loads to the saved
+     registry only if everything had been flushed *)
+  Theorem save_io_failed_close_extent old new kept :
+    reg_ok new -> (0 < kept < List.length (render new))%nat ->
+    load_text (snd (save_io old new (Some (FailClose kept)))) = LReadError.
+  Proof.
+    intros _ Hk. cbn [save_io snd]. unfold load_text. rewrite parse_prefix by exact Hk. reflexivity.
+  Qed.
+
 End Crash.
 
 (* the category a crash point falls into, for the correspondence run: n bytes of a
@@ -130,4 +167,16 @@ Definition crash_category (n : option nat) (len : nat) : nat :=
   | None => 0
   | Some k => if Nat.eqb k 0 then (if Nat.eqb len 0 then 1 else 2)
               else if Nat.ltb k len then 3 else 1
+  end%nat.
+
+(* the same for an I/O error (op: 0 = the open, 1 = the write, 2 = the close, with [kept] bytes of a
+   text of length [len] flushed before it failed): (1 if the error is reported else 0, what the file
+   loads to afterwards: 0 old registry, 1 saved registry, 2 empty registry, 3 read error) *)
+Definition io_fault_category (op : option nat) (kept len : nat) : nat * nat :=
+  match op with
+  | None => (0, 1)
+  | Some O => (1, 0)
+  | Some (S O) => (1, if Nat.eqb len 0 then 1 else 2)
+  | Some _ => (1, if Nat.eqb kept 0 then (if Nat.eqb len 0 then 1 else 2)
+                  else if Nat.ltb kept len then 3 else 1)
   end%nat.
